@@ -723,6 +723,23 @@ pub fn gen_program(ch: &mut Choices, curve: Curve, cfg: &GenCfg) -> Program {
         ops[pos] = Op::Closure(body);
     }
     let mut prog = Program { curve, tlabel, pre, ops, owned, cap_p, cap_v, party_cap, seed, pc, gens };
+    // now and then the first phase ends on a gate whose wires are all zero (a full gate, or an
+    // allocation left open), or a closure does
+    match ch.weighted(&[236, 8, 6, 6]) {
+        1 => prog.ops.push(Op::AllocMul { l: Sc::C(ScalarSpec::Zero), r: Sc::C(ScalarSpec::Zero) }),
+        2 => {
+            // only when no allocation is pending already (an odd number of single allocations so far)
+            if !prog.shape().half_open_end1 {
+                prog.ops.push(Op::Alloc { val: Sc::C(ScalarSpec::Zero) });
+            }
+        }
+        3 => {
+            if let Some(Op::Closure(b)) = prog.ops.iter_mut().rev().find(|o| matches!(o, Op::Closure(_))) {
+                b.push(Op::AllocMul { l: Sc::C(ScalarSpec::Zero), r: Sc::C(ScalarSpec::Zero) });
+            }
+        }
+        _ => {}
+    }
     // constraints spelled before their variables exist (drawn last: earlier choices keep their meaning)
     if ch.chance(56) {
         let k = 1 + ch.below(3);
